@@ -14,6 +14,7 @@ import (
 	"time"
 
 	"github.com/mdlayher/corerad/internal/config"
+	"github.com/mdlayher/corerad/internal/netstate"
 	"github.com/mdlayher/corerad/verifrt/ev"
 	"github.com/mdlayher/corerad/verifrt/ref"
 	"github.com/mdlayher/corerad/verifrt/vsched"
@@ -64,6 +65,8 @@ func c07Cases() []c07Case {
 			cs = append(cs, c07Case{Name: n, UnicastOnly: uo, RS: p.rs})
 		}
 	}
+	// After a re-initialisation (link change at 1s): solicitations are served on the new connection.
+	cs = append(cs, c07Case{Name: "burst-mixed/after-reinit", RS: pats[2].rs, Fault: "reinit"})
 	// Failed transmissions: the solicited answer's WriteTo fails, with and without a
 	// stop arriving while that write is in flight.
 	for _, f := range []string{"unicast-write-fails", "unicast-write-fails+cancel"} {
@@ -105,9 +108,14 @@ func c07Scenario(c c07Case) *vsched.Scenario {
 		Horizon: 5 * time.Minute,
 		Setup: func(x *vsched.Exec) {
 			res = c07Result{}
-			a = newAdvWorld(cfg, true, false)
+			a = newAdvWorld(cfg, true, c.Fault == "reinit")
 			arm := make(chan struct{})
-			if c.Fault != "" {
+			if c.Fault == "reinit" {
+				x.Spawn("link", func() {
+					vsched.Sleep(time.Second)
+					vsched.Send("harness:link-change", a.watchC, netstate.LinkDown)
+				})
+			} else if c.Fault != "" {
 				a.latency = true
 				fired := false
 				a.writeFault = func(_ *fconn, dst netip.Addr) error {
@@ -145,7 +153,7 @@ func c07Scenario(c c07Case) *vsched.Scenario {
 				// Quiet: long enough for every response (<=500ms) and every rate-limited multicast RA (<=3s).
 				vsched.Sleep(4 * time.Second)
 				res.stopAt = a.now()
-				if c.Fault != "" {
+				if c.Fault != "" && c.Fault != "reinit" {
 					// The advertiser has stopped on its own (or was stopped): read the
 					// counters once everything is over.
 					a.cancel()
@@ -187,7 +195,7 @@ func c07Scenario(c c07Case) *vsched.Scenario {
 			bad("C07:harness", "script did not complete")
 			return out
 		}
-		if ret, err, _ := a.returned(); !ret || (err != nil && c.Fault == "") {
+		if ret, err, _ := a.returned(); !ret || (err != nil && (c.Fault == "" || c.Fault == "reinit")) {
 			bad("C07:run", "Run returned=%t err=%v", ret, err)
 		} else if c.Fault == "unicast-write-fails" && err == nil {
 			bad("C07:transmit-error-not-reported", "a failed transmission did not end the task with an error")
@@ -255,7 +263,7 @@ func c07Scenario(c c07Case) *vsched.Scenario {
 		for _, k := range keys {
 			w, g := wantDst[k], gotDst[k]
 			switch {
-			case c.Fault != "":
+			case c.Fault != "" && c.Fault != "reinit":
 				// the answer's transmission failed by construction
 			case len(g) < len(w):
 				bad("C07:solicitation-lost", "%d solicitations from %s read at %v, %d unicast RAs to it at %v", len(w), k, w, len(g), g)
@@ -291,9 +299,12 @@ func c07Scenario(c c07Case) *vsched.Scenario {
 		}
 		// Counters.
 		okU, okM, failed := 0, 0, 0
-		for i, w := range a.Writes() {
-			if (isAllNodes(w.Dst) && w.RA != nil && w.RA.RouterLifetime == 0) || (i == 0 && isAllNodes(w.Dst) && w.T == 0) {
-				continue // final and initial RA are sent outside the scheduler and not counted
+		seenConn := map[int]bool{}
+		for _, w := range a.Writes() {
+			first := !seenConn[w.Conn]
+			seenConn[w.Conn] = true
+			if (isAllNodes(w.Dst) && w.RA != nil && w.RA.RouterLifetime == 0) || (first && isAllNodes(w.Dst)) {
+				continue // the final RA and each connection's initial RA are sent outside the scheduler and not counted
 			}
 			switch {
 			case w.Err != nil:
